@@ -21,6 +21,7 @@ pub enum Profile {
     Expnext,
     Lateread,
     Aging,
+    Monoburst,
 }
 
 pub const PROFILES: [Profile; 8] = [
@@ -52,6 +53,7 @@ impl Profile {
             "expnext" => Self::Expnext,
             "lateread" => Self::Lateread,
             "aging" => Self::Aging,
+            "monoburst" => Self::Monoburst,
             _ => return None,
         })
     }
@@ -72,6 +74,7 @@ impl Profile {
             Self::Expnext => "expnext",
             Self::Lateread => "lateread",
             Self::Aging => "aging",
+            Self::Monoburst => "monoburst",
         }
     }
 }
@@ -282,6 +285,96 @@ pub fn gen_case(seed: u64, kind: &'static str, profile: Profile, len: usize, whi
                 _ => push(&mut out, format!("ins {} {}", rng.below(nkeys), rng.below(3))),
             }
         }
+        if sync {
+            out.push("sync".into());
+            out.push("snap".into());
+        }
+        out.push("iter".into());
+        out.push("drop".into());
+        return out;
+    }
+    if profile == Profile::Monoburst {
+        // Bursts of ONE kind of call far longer than the bounded channels (384 slots), with no
+        // other call in between: only invalidations, only updates, only lookups, only fresh
+        // inserts — inside and outside the housekeeping window. Every call must return: a writer
+        // that meets a full channel has to run the pending maintenance itself, whatever it sends.
+        let n = 420 + rng.below(260);
+        for i in 0..n {
+            out.push(format!("ins {} {}", i, i % 5));
+            if sync && i % 50 == 49 {
+                out.push("sync".into());
+            }
+        }
+        if sync {
+            out.push("sync".into());
+        }
+        out.push("snap".into());
+        if rng.chance(1, 2) {
+            out.push("adv 600000000".into());
+        }
+        match rng.below(4) {
+            0 | 1 => {
+                for i in 0..n {
+                    out.push(format!("inv {}", i));
+                }
+            }
+            2 => {
+                for i in 0..n {
+                    out.push(format!("get {}", i));
+                }
+            }
+            _ => {
+                for i in 0..n {
+                    out.push(format!("ins {} {}", i, (i + 1) % 5));
+                }
+            }
+        }
+        out.push("snap".into());
+        if sync {
+            out.push("sync".into());
+            out.push("snap".into());
+        }
+        out.push("iter".into());
+        out.push("drop".into());
+        return out;
+    }
+    if profile == Profile::Monoburst {
+        // Bursts of ONE kind of call far longer than the bounded channels (384 slots), with no
+        // other call in between: only invalidations, only updates, only lookups, only fresh
+        // inserts — inside and outside the housekeeping window. Every call must return: a writer
+        // that meets a full channel has to run the pending maintenance itself, whatever it sends.
+        let n = 420 + rng.below(260);
+        for i in 0..n {
+            out.push(format!("ins {} {}", i, i % 5));
+            if sync && i % 50 == 49 {
+                out.push("sync".into());
+            }
+        }
+        if sync {
+            out.push("sync".into());
+        }
+        out.push("snap".into());
+        if rng.chance(1, 2) {
+            out.push("adv 600000000".into());
+        }
+        match rng.below(4) {
+            0 | 1 => {
+                for i in 0..n {
+                    out.push(format!("inv {}", i));
+                }
+            }
+            2 => {
+                for i in 0..n {
+                    out.push(format!("get {}", i));
+                }
+            }
+            _ => {
+                for i in 0..n {
+                    out.push(format!("ins {} {}", i, (i + 1) % 5));
+                }
+            }
+        }
+        out.push("snap".into());
         if sync {
             out.push("sync".into());
             out.push("snap".into());
@@ -703,7 +796,7 @@ pub fn gen_case(seed: u64, kind: &'static str, profile: Profile, len: usize, whi
                 Profile::Churn => (38, 14, 4, 2, 24, 3, 3, 6, 6),
                 Profile::Growth => (50, 18, 4, 3, 6, 1, 2, 8, 8),
                 Profile::Scan => (40, 45, 2, 1, 3, 0, 0, 6, 3),
-                Profile::Big | Profile::Batch | Profile::Oversize | Profile::Regrow | Profile::Growexp | Profile::Expnext | Profile::Lateread | Profile::Aging => (55, 20, 2, 1, 8, 1, 1, 2, 10),
+                Profile::Big | Profile::Batch | Profile::Oversize | Profile::Regrow | Profile::Growexp | Profile::Expnext | Profile::Lateread | Profile::Aging | Profile::Monoburst => (55, 20, 2, 1, 8, 1, 1, 2, 10),
             };
         let mut acc = 0;
         let mut pick = |p: u64| { acc += p; r < acc };
